@@ -51,10 +51,12 @@ type slot struct {
 }
 
 type Model struct {
-	Immutable bool
-	Repos     map[string]*Repo
-	Touched   map[string]bool
-	slots     map[int]slot
+	// KeepCommitted mirrors ops.Env.KeepCommitted.
+	KeepCommitted bool
+	Immutable     bool
+	Repos         map[string]*Repo
+	Touched       map[string]bool
+	slots         map[int]slot
 	// Stats for the generator-quality report.
 	Events map[string]int
 }
@@ -66,6 +68,7 @@ func New(immutable bool) *Model {
 // Clone returns a deep-enough copy (byte slices are shared, never mutated in place).
 func (m *Model) Clone() *Model {
 	n := New(m.Immutable)
+	n.KeepCommitted = m.KeepCommitted
 	for k, v := range m.Touched {
 		n.Touched[k] = v
 	}
@@ -389,7 +392,15 @@ func (m *Model) Step(u *ops.Universe, op ops.Op, out ops.Out) string {
 		if _, had := r.Blobs[want.Digest]; !had && m.Events["deleted:"+name+want.Digest] > 0 {
 			m.ev("repush-after-delete")
 		}
-		r.Blobs[want.Digest] = Blob{data, ops.MTOctet}
+		mt := ops.MTOctet
+		if op.Mode == 5 {
+			mt = ops.MTBlobAlt
+			m.ev("blob-other-media-type")
+		}
+		if out.Desc.MediaType != mt {
+			return fmt.Sprintf("pushBlob: returned media type %q, want %q", out.Desc.MediaType, mt)
+		}
+		r.Blobs[want.Digest] = Blob{data, mt}
 		m.Touched[name] = true
 		return ""
 
@@ -925,7 +936,7 @@ func (m *Model) Step(u *ops.Universe, op ops.Op, out ops.Out) string {
 		if !ok {
 			return "harness: commit of an empty slot was not skipped"
 		}
-		if out.Err == "" {
+		if out.Err == "" && !m.KeepCommitted {
 			delete(m.slots, op.W)
 		}
 		r := m.Repos[sl.repo]
